@@ -27,7 +27,7 @@ type vcaStep struct {
 	Addr    string `json:"addr"`
 	Good    bool   `json:"good"`
 	N       int    `json:"n"`
-	Cookie  string `json:"cookie"`
+	Cookies []string `json:"cookies"`
 	D       int    `json:"d"`
 }
 
@@ -194,7 +194,7 @@ func vcaRun(t *testing.T, idx int, s vcaSched, emit func(map[string]any)) {
 	emit(map[string]any{"ev": "Reset", "sched": idx, "enabled": enabled, "ttl": int(ttl / time.Second), "window": int(window / time.Second),
 		"limit": limit, "routes": len(vcaRoutes), "hasSt": auth != nil})
 	port := 40000
-	do := func(method, path, addr, cookie string, body string, stream bool) *httptest.ResponseRecorder {
+	do := func(method, path, addr string, cookies []string, body string, stream bool) *httptest.ResponseRecorder {
 		var req *http.Request
 		if body != "" {
 			req = httptest.NewRequest(method, path, strings.NewReader(body))
@@ -203,12 +203,14 @@ func vcaRun(t *testing.T, idx int, s vcaSched, emit func(map[string]any)) {
 		}
 		port++
 		req.RemoteAddr = vcaAddrIP[addr] + ":" + strconv.Itoa(port)
-		switch cookie {
-		case "", "none":
-		case "forged":
-			req.AddCookie(&http.Cookie{Name: sessionCookieName, Value: "Zm9yZ2VkLXRva2VuLW5ldmVyLWlzc3VlZC1ieS1hbnktbG9naW4"})
-		default:
-			req.AddCookie(&http.Cookie{Name: sessionCookieName, Value: tokenOf[cookie]})
+		// the session cookies in the order given (a client may send several cookies of the same name)
+		for _, cookie := range cookies {
+			switch cookie {
+			case "forged":
+				req.AddCookie(&http.Cookie{Name: sessionCookieName, Value: "Zm9yZ2VkLXRva2VuLW5ldmVyLWlzc3VlZC1ieS1hbnktbG9naW4"})
+			default:
+				req.AddCookie(&http.Cookie{Name: sessionCookieName, Value: tokenOf[cookie]})
+			}
 		}
 		if stream {
 			// streaming endpoints run until the client goes away: the client is already gone
@@ -220,17 +222,27 @@ func vcaRun(t *testing.T, idx int, s vcaSched, emit func(map[string]any)) {
 		mux.ServeHTTP(rec, req)
 		return rec
 	}
-	request := func(cookie string) {
+	known := func(cookies []string) {
+		for _, c := range cookies {
+			if c != "forged" && tokenOf[c] == "" {
+				t.Fatalf("schedule %d presents token %s before it was issued", idx, c)
+			}
+		}
+	}
+	request := func(cookies []string) {
+		if cookies == nil {
+			cookies = []string{}
+		}
 		served := []string{}
 		codes := []int{}
 		for _, r := range vcaRoutes {
-			rec := do(r.method, r.path, "a1", cookie, "", r.stream)
+			rec := do(r.method, r.path, "a1", cookies, "", r.stream)
 			codes = append(codes, rec.Code)
 			if vcaServed(rec) {
 				served = append(served, r.method+" "+r.path)
 			}
 		}
-		emit(map[string]any{"ev": "Request", "cookie": cookie, "served": len(served) > 0, "servedAll": len(served) == len(vcaRoutes),
+		emit(map[string]any{"ev": "Request", "cookies": cookies, "served": len(served) > 0, "servedAll": len(served) == len(vcaRoutes),
 			"servedRoutes": served, "codes": codes, "now": nowS(), "st": project()})
 	}
 	for _, st := range s.Steps[1:] {
@@ -241,7 +253,7 @@ func vcaRun(t *testing.T, idx int, s vcaSched, emit func(map[string]any)) {
 				body = `{"username":"admin","password":"s3cret"}`
 			}
 			for i := 0; i < st.N; i++ {
-				rec := do("POST", "/ui/api/auth/login", st.Addr, "none", body, false)
+				rec := do("POST", "/ui/api/auth/login", st.Addr, nil, body, false)
 				token := "none"
 				for _, c := range rec.Result().Cookies() {
 					if c.Name == sessionCookieName && c.Value != "" {
@@ -260,27 +272,41 @@ func vcaRun(t *testing.T, idx int, s vcaSched, emit func(map[string]any)) {
 				emit(map[string]any{"ev": "Login", "addr": st.Addr, "good": st.Good, "status": rec.Code, "adm": adm, "token": token, "now": nowS(), "st": project()})
 			}
 		case "Logout":
-			if st.Cookie != "none" && st.Cookie != "forged" && tokenOf[st.Cookie] == "" {
-				t.Fatalf("schedule %d presents token %s before it was issued", idx, st.Cookie)
+			known(st.Cookies)
+			cookies := st.Cookies
+			if cookies == nil {
+				cookies = []string{}
 			}
-			rec := do("POST", "/ui/api/auth/logout", "a1", st.Cookie, "", false)
-			emit(map[string]any{"ev": "Logout", "cookie": st.Cookie, "status": rec.Code, "now": nowS(), "st": project()})
+			rec := do("POST", "/ui/api/auth/logout", "a1", cookies, "", false)
+			emit(map[string]any{"ev": "Logout", "cookies": cookies, "status": rec.Code, "now": nowS(), "st": project()})
 		case "ProbeAll":
-			// one Request per cookie that can be presented now: none, forged, every token issued so far
-			probe := []string{"none", "forged"}
+			// one Request per cookie list that can be presented now: none, forged, every issued token alone, with a forged
+			// same-named cookie before / after it, and pairs of issued tokens
+			probe := [][]string{{}, {"forged"}}
+			issued := []string{}
 			for _, id := range vcaTokenIDs {
 				if tokenOf[id] != "" {
-					probe = append(probe, id)
+					issued = append(issued, id)
+				}
+			}
+			for _, id := range issued {
+				probe = append(probe, []string{id}, []string{"forged", id}, []string{id, "forged"})
+			}
+			if len(issued) <= 3 {
+				for _, a := range issued {
+					for _, b := range issued {
+						if a != b {
+							probe = append(probe, []string{a, b})
+						}
+					}
 				}
 			}
 			for _, c := range probe {
 				request(c)
 			}
 		case "Request":
-			if st.Cookie != "none" && st.Cookie != "forged" && tokenOf[st.Cookie] == "" {
-				t.Fatalf("schedule %d presents token %s before it was issued", idx, st.Cookie)
-			}
-			request(st.Cookie)
+			known(st.Cookies)
+			request(st.Cookies)
 		case "Tick":
 			time.Sleep(time.Duration(st.D) * time.Second)
 			emit(map[string]any{"ev": "Tick", "d": st.D, "now": nowS(), "st": project()})
